@@ -26,7 +26,19 @@ static inline unsigned spec_log2_(uint64_t v) {
     return n;
 }
 
+size_t g_k;   /* ghost: arbitrary element index */
 #ifndef VERIF_NATIVE
+/* block width analysis: every element of the block fits the returned bit width (ghost element), any count */
+uint8_t varintBP128MaxBitWidth64(const uint64_t *values, size_t count)
+    __CPROVER_requires(count >= 1 && count <= (1ULL << 32) && g_k < count && FRESH(values, count * sizeof(uint64_t)))
+    __CPROVER_assigns()
+    __CPROVER_ensures(RET <= 64 && (RET == 64 || values[g_k] < (1ULL << RET)))
+    __CPROVER_ensures(RET != 0 || values[g_k] == 0);
+uint8_t varintBP128MaxBitWidth32(const uint32_t *values, size_t count)
+    __CPROVER_requires(count >= 1 && count <= (1ULL << 32) && g_k < count && FRESH(values, count * sizeof(uint32_t)))
+    __CPROVER_assigns()
+    __CPROVER_ensures(RET <= 32 && (RET == 32 || values[g_k] < (1U << RET)))
+    __CPROVER_ensures(RET != 0 || values[g_k] == 0);
 size_t varintBP128GetCount(const uint8_t *src, size_t srcBytes)
     __CPROVER_requires(srcBytes <= 64 && FRESH(src, srcBytes))       /* arbitrary contents, exactly srcBytes bytes */
     __CPROVER_assigns()
@@ -49,6 +61,8 @@ bool w_bpMaxBytes(size_t count)
     __CPROVER_requires(count <= (1ULL << 32)) __CPROVER_assigns() __CPROVER_ensures(RET == true)
 { return varintBP128MaxBytes(count) == (count / 128) * 1025 + (count % 128 ? 2 + (count % 128) * 8 : 0) + 9; }
 void H_bpMaxBytes(void) { size_t c; w_bpMaxBytes(c); CANARY(); }
+void H_bpMaxBitWidth64(void) { size_t k; g_k = k; uint64_t *v; size_t c; varintBP128MaxBitWidth64(v, c); CANARY(); }
+void H_bpMaxBitWidth32(void) { size_t k; g_k = k; uint32_t *v; size_t c; varintBP128MaxBitWidth32(v, c); CANARY(); }
 void H_bpGetCount(void) { uint8_t *s; size_t n; varintBP128GetCount(s, n); CANARY(); }
 
 #if BP_KIND < 2
